@@ -244,8 +244,15 @@ def extract_iter(
         else:
             # Only inserting new items into the stack trace; since
             # next_inner is in both `items` and `to_unwrap`, keep the
-            # latter (which remembers its own depth) and drop it from
-            # the former
+            # latter and drop it from the former. The new items are
+            # logically between this frame and next_inner, so next_inner
+            # must not be deeper than this frame (or a PRUNE issued from
+            # within the new items would remove it too), but if it was
+            # shallower then it stays that way (or a PRUNE issued by
+            # next_inner itself would no longer reach its own callees).
+            if to_unwrap:
+                next_origin, next_item, next_depth = to_unwrap.popleft()
+                to_unwrap.appendleft((next_origin, next_item, min(next_depth, depth)))
             items = items[:-1]
         for item in reversed(items):
             to_unwrap.appendleft((better_origin(item, None), item, depth))
